@@ -497,7 +497,7 @@ func checkC01(r *core.Result) {
 		"(2) sibling table: wire type constant per Encode* method; leaf codec class per Decode*/DecodePacked* method (resolved callees). (3) reject-predicate intervals: the set of varint values each reader rejects with an overflow / invalid-tag error is computed exactly from the comparison structure of the source (finite union of intervals) and must not meet the values a conforming writer emits; scalar and packed readers of one kind agree. (4) size helpers range (shared with C03)."
 	r.RuleText = "one obligation per (rule, method); all Encoder methods except EncodeNested (C19) and all Decoder readers are enumerated"
 	r.Assumptions = []string{
-		"not decided: that EncodeVarint writes SizeOfVarint(v) bytes, that varint/zig-zag arithmetic inverts, float bit patterns (numeric facts about loops and shifts)",
+		"not decided: that varint/zig-zag arithmetic inverts (byte contents), float bit patterns; the varint LENGTH is decided per bit-length class (E-varint-size)",
 		"trusted numeric lemmas: EncodeZigZag32(v) has the size SizeOfZigZag(uint64(v)) for int32 v; SizeOfTagKey(c) for constant c",
 	}
 	r.Trusted = []string{"spec table in checks/c01.go (written from the protobuf encoding documentation)", "go/types", "sym normalisation (uninterpreted atoms ⇒ equal normal forms are equal for all values)"}
@@ -514,5 +514,6 @@ func checkC01(r *core.Result) {
 	np := checkRejectPredicates(r, prog, "C01")
 	r.Floor("reject predicates evaluated", np, 8)
 	verifyPureRanges(r, prog)
+	checkVarintClasses(r, prog)
 	_ = bounds.QualifiedName
 }
